@@ -93,7 +93,7 @@ var (
 // signatures produced so far.
 type evWorld struct {
 	kr      keyring
-	claims  map[string]psatoken.IClaims // cA, cB, cBad
+	claims  map[string]psatoken.IClaims // cA, cB, cC, cBad
 	enc     map[string][]byte           // id -> CBOR encoding
 	sigs    map[string]sigID            // signature bytes -> symbolic signature
 	goodSig map[sigID][]byte            // a pre-made honest signature for every (k, a, p)
@@ -220,6 +220,7 @@ func newEvWorld(algs []string, cc Conc, d *domains) *evWorld {
 		sigs: map[string]sigID{}, goodSig: map[sigID][]byte{}}
 	w.claims["cA"] = cc.BuildLit(d.base("P2", "full"))
 	w.claims["cB"] = cc.BuildLit(d.base("P1", "minimal"))
+	w.claims["cC"] = cc.BuildLit(d.base("P2", "minimal")) // same profile as cA, fewer optional claims
 	bad := d.base("P2", "full")
 	bad.Vals["implId"] = hbytes(31, 2)
 	w.claims["cBad"] = cc.BuildLit(bad)
